@@ -3,7 +3,7 @@
     No Extract Constant / Extract Inductive directive of our own. *)
 Require Extraction.
 Require Import ExtrOcamlBasic.
-From ZV Require Import Base.Bytes Base.Res Spec.Rfc23 Model.Codec Spec.Stream Spec.Compat Model.Handshake Model.World Model.FairQueue Model.TrySend Model.Proxy Model.Endpoint Model.Runtime Model.Chain.
+From ZV Require Import Base.Bytes Base.Res Spec.Rfc23 Model.Codec Spec.Stream Spec.Compat Model.Handshake Model.World Model.FairQueue Model.TrySend Model.Proxy Model.Endpoint Model.Runtime Model.Chain Model.PubFan Model.RrSend.
 Extraction Language OCaml.
 Separate Extraction
   Bytes.be Bytes.of_be Bytes.lenN Bytes.is_prefix
@@ -19,4 +19,6 @@ Separate Extraction
   Proxy.pstate0 Proxy.proxy_settle Proxy.proxy_iter
   Endpoint.parse_endpoint Endpoint.fmt_endpoint
   Chain.chain0 Chain.cstep Chain.quiescent
+  PubFan.fstep PubFan.get
+  RrSend.rstep RrSend.rstate0 RrSend.wire_of
   Runtime.brun Runtime.bstate0 Runtime.drop_socket Runtime.conn_open Runtime.listening.
